@@ -529,7 +529,8 @@ def _fn_ivp(t, y, A):
 
 class IvpScen(Scen):
     functional = "solve_ivp"
-    kinds = ("pure", "nnmod", "edmod")
+    # pure_list: the plain function with the state given as a list of two tensors
+    kinds = ("pure", "nnmod", "edmod", "pure_list")
 
     def __init__(self, kind, vseed, nt=5):
         super().__init__(kind, vseed)
@@ -553,6 +554,13 @@ class IvpScen(Scen):
         if self.kind == "pure":
             return (xitorch.integrate.solve_ivp(_fn_ivp, self.ts, self.y0, params=(self.A,), bck_options=bck,
                                                 method=method, **fwd),)
+        if self.kind == "pure_list":
+            def f_list(t, ys, A):
+                out = _fn_ivp(t, torch.cat([v.reshape(-1) for v in ys]), A)
+                return [out[:1], out[1:]]
+            yt = xitorch.integrate.solve_ivp(f_list, self.ts, [self.y0[:1], self.y0[1:]], params=(self.A,),
+                                             bck_options=bck, method=method, **fwd)
+            return (torch.cat([v.reshape(v.shape[0], -1) for v in yt], dim=1),)
         return (xitorch.integrate.solve_ivp(self.mod.forward, self.ts, self.y0, params=(), bck_options=bck,
                                             method=method, **fwd),)
 
@@ -590,7 +598,7 @@ class IvpScen(Scen):
             p.append("ts-differs")
         if not _teq(args[2], self.y0):
             p.append("y0-differs")
-        want = (self.A,) if self.kind == "pure" else ()
+        want = (self.A,) if self.kind in ("pure", "pure_list") else ()
         got = tuple(args[3])
         if len(got) != len(want) or any(not _teq(a, b) for a, b in zip(got, want)):
             p.append("params-differ")
